@@ -17,6 +17,7 @@ type variant struct {
 	Expect string // rule expected to fire ("" = must stay silent)
 	Edits  []edit
 	Note   string
+	Limit  string // variants only: rule whose alarm on this variant is a documented limitation (DESIGN.md §6)
 }
 
 type edit struct {
@@ -139,6 +140,17 @@ func runVariant(v variant, known *KnownFile, tier string) (bool, bool, string) {
 		}
 		if len(viol) == 0 {
 			return true, false, "silent"
+		}
+		if v.Limit != "" {
+			only := true
+			for _, o := range viol {
+				if o.Rule != v.Limit {
+					only = false
+				}
+			}
+			if only {
+				return true, false, "documented limitation: flagged by " + v.Limit + " only (" + viol[0].Key + ")"
+			}
 		}
 		return false, false, fmt.Sprintf("FALSE ALARM: %s %s %s: %s", viol[0].Rule, viol[0].Status, viol[0].Key, viol[0].Detail)
 	}
